@@ -32,3 +32,19 @@ Theorem C10_total :
   forall cfg s, parse_load_file cfg s = LErr \/ exists code start, parse_load_file cfg s = LOk code start.
 Proof. intros cfg s. destruct (parse_load_file cfg s); eauto. Qed.
 Print Assumptions C10_total.
+
+(* a line that holds something, but nothing except commas and white space in front of its remark, is neither blank nor a
+   comment: both readers refuse it (D32: they used to skip it like a blank line) - and such a line counts as
+   instruction-bearing in C10_no_silent_skip (AsmSpec.line_kind), so an accepted file holds none *)
+Theorem C10_comma_only_line_refused :
+  forall m st raw c0 rest,
+    raw = c0 :: rest -> c0 <> 59 ->
+    fields (commas_to_spaces (before_semicolon (lower raw))) = [] -> fields (before_semicolon (lower raw)) <> [] ->
+    line94 m st raw = None /\ line88 m st raw = None.
+Proof. exact comma_line_refused. Qed.
+Print Assumptions C10_comma_only_line_refused.
+Example comma_only_lines :
+  parse_load_file (mkCfg 2 8000 8000 80000 8000 8000 100 100) (s2t "," ++ [10] ++ s2t "MOV.I $ 0, $ 1" ++ [10]) = LErr /\
+  parse_load_file (mkCfg 0 8000 8000 80000 8000 8000 100 100) (s2t "MOV $ 0, $ 1" ++ [10] ++ s2t " , , ; c" ++ [10]) = LErr /\
+  parse_load_file (mkCfg 0 8000 8000 80000 8000 8000 100 100) (s2t "MOV $ 0, $ 1" ++ [10] ++ s2t "   ; c" ++ [10]) <> LErr.
+Proof. split; [vm_compute; reflexivity|]. split; [vm_compute; reflexivity|vm_compute; discriminate]. Qed.
